@@ -243,7 +243,7 @@ theorem certShape_accepts (env : Env) (defs : Spec.Defs) :
         | some it =>
           simp only [hitems] at hit
           obtain ⟨xs, rfl, F', hve⟩ := valid_arr_parts defs s j F hr htypes it hitems hv
-          rw [acc_slice_iff env t xs (by intro n e; subst e; simp at htn) (by intro e; subst e; simp at htn)]
+          rw [acc_slice_iff env t xs (elemOK_of env t (by intro n e; subst e; simp at htn) (by intro e; subst e; simp at htn))]
           intro x hx
           obtain ⟨F'', hvx⟩ := validElems_mem defs it xs F' hve x hx
           exact ih t it hit F'' x hvx (hdoc.ofElem x hx)
@@ -786,7 +786,7 @@ theorem certFull_accepts (env : Env) (defs : Spec.Defs) :
         | some it =>
           simp only [hitems] at hit
           obtain ⟨xs, rfl, F', hve⟩ := valid_arr_parts defs s j F hr htypes it hitems hv
-          rw [acc_slice_iff env t xs (by intro n e; subst e; simp at htn) (by intro e; subst e; simp at htn)]
+          rw [acc_slice_iff env t xs (elemOK_of env t (by intro n e; subst e; simp at htn) (by intro e; subst e; simp at htn))]
           intro x hx
           obtain ⟨F'', hvx⟩ := validElems_mem defs it xs F' hve x hx
           exact ih t it hit F'' x hvx (hdoc.ofElem x hx)
@@ -964,7 +964,7 @@ theorem valid_arr_count (defs : Spec.Defs) (ps : Schema) (j : Json) (F : Nat) (h
 /-- the slice an array member decodes to passes the depth-1 item-count check built from its schema's limits -/
 theorem arr_decode_passes (env : Env) (defs : Spec.Defs) (t : GoTy) (ps : Schema) (mn mx : Int)
     (j : Json) (F g : Nat) (v : GoVal)
-    (hr : ps.node.ref = "") (ht : ps.node.types = ["array"]) (hn : ∀ n, t ≠ .named n) (hb : t ≠ .int .u8)
+    (hr : ps.node.ref = "") (ht : ps.node.types = ["array"]) (he : elemOK env t = true)
     (hmn : mn = ps.node.minItems) (hmx : mx = ps.node.maxItems)
     (hv : Spec.valid F defs ps j = true) (hd : decode .json env g (.slice t) j = .ok v) :
     checkArray 1 v mn mx = true := by
@@ -972,11 +972,8 @@ theorem arr_decode_passes (env : Env) (defs : Spec.Defs) (t : GoTy) (ps : Schema
   cases g with
   | zero => simp [decode] at hd
   | succ g =>
-    have hdec : decode .json env (g + 1) (.slice t) (.arr xs) = (decodeElems .json env g t xs).map .slice := by
-      cases t <;> first
-        | (exfalso; exact hn _ rfl)
-        | (rename_i k; cases k <;> first | (exfalso; exact hb rfl) | simp [decode])
-        | simp [decode]
+    have hdec : decode .json env (g + 1) (.slice t) (.arr xs) = (decodeElems .json env g t xs).map .slice :=
+      decode_slice_eq env t xs g he
     rw [hdec] at hd
     cases hr' : decodeElems .json env g t xs with
     | error e => rw [hr'] at hd; cases hd
@@ -1107,7 +1104,7 @@ theorem certAll_accepts (env : Env) (defs : Spec.Defs) :
                   subst hv0
                   -- the field lemma, with "every value validator on this field passes" as the predicate
                   let Good : String → GoVal → Prop := fun name v => ∀ x ∈ vs, fieldNameOf x = name → passesOn v x = true
-                  have hjust : ∀ x ∈ vs, valJustified fs s x = true := hvs
+                  have hjust : ∀ x ∈ vs, valJustified env fs s x = true := hvs
                   have hascii : ∀ p ∈ kvs, ∀ t, p.2 = .str t → C06.IsAscii t := by
                     intro p hp t e
                     exact hdoc.strs t (.inObj kvs p hp (by rw [e]; exact .here))
@@ -1160,8 +1157,7 @@ theorem certAll_accepts (env : Env) (defs : Spec.Defs) :
                         | slice t =>
                           rw [hfty] at hd hsl
                           simp only [sliceElemOK] at hsl
-                          exact arr_decode_passes env defs t ps mn mx p.2 F'' g v hpr hpt
-                            (by intro n e; subst e; simp at hsl) (by intro e; subst e; simp at hsl) hmn hmx hvv hd
+                          exact arr_decode_passes env defs t ps mn mx p.2 F'' g v hpr hpt hsl hmn hmx hvv hd
                         | _ => rw [hfty] at hsl; simp [sliceElemOK] at hsl
                     | required k => rfl
                     | _ => simp [valJustified] at hj
@@ -1314,7 +1310,7 @@ theorem certAll_accepts (env : Env) (defs : Spec.Defs) :
         | some it =>
           simp only [hitems] at hit
           obtain ⟨xs, rfl, F', hve⟩ := valid_arr_parts defs s j F hr htypes it hitems hv
-          rw [acc_slice_iff env t xs (by intro n e; subst e; simp at htn) (by intro e; subst e; simp at htn)]
+          rw [acc_slice_iff env t xs htn]
           intro x hx
           obtain ⟨F'', hvx⟩ := validElems_mem defs it xs F' hve x hx
           exact ih t it hit F'' x hvx (hdoc.ofElem x hx)
